@@ -20,6 +20,7 @@ import argparse
 import contextlib
 import io
 import importlib
+import itertools
 import json
 import os
 import random
@@ -169,8 +170,29 @@ def main():
                                capture_output=True, text=True)
             if p.returncode != 0:
                 broken.append("leanchecker: " + (p.stdout + p.stderr)[-300:])
+        # ---- pinned-model fallback (DESIGN §8.8): the source was rewritten into a form the translator cannot read, or
+        # reads differently, and an obligation broke.  Before treating that as a loss of the proof, put back the model
+        # the translator produced from the pinned tree: its theorems are re-checked here, and whether it still
+        # describes the code is decided by the correspondence below (deepened) — the hand-written-model kind of tie.
+        pinned_used, first_broken = [], []
+        gen_files = common.gen_files_for(getattr(mod, "GEN_PREFIXES", []))
+        if broken and gen_files and not os.environ.get("VERIF_NO_FALLBACK"):
+            differs = common.gen_differs(gen_files)
+            if differs:
+                common.restore_pinned(differs)
+                build2 = common.lake_build(list(mod.TARGETS) + ["verifdrv"])
+                axioms2, problems2 = common.run_audit(prop, mod.THEOREMS)
+                if build2.ok and not problems2 and not forb:
+                    pinned_used, first_broken = differs, list(broken)
+                    broken, build, axioms = [], build2, axioms2
+                else:
+                    build = build2 if os.path.exists(common.DRIVER) else build
         have_driver = os.path.exists(common.DRIVER) and \
             not any("VerifModel/" in e[0] or e[0].startswith("Main") for e in build.errors)
+        if have_driver:
+            import atexit
+            common.private_driver(prop)
+            atexit.register(common.drop_private_driver)
     finally:
         lock.close()
     all_thms = [t for _, ts in sorted(mod.THEOREMS.items()) for t in ts]
@@ -184,7 +206,24 @@ def main():
     if os.path.exists(cpath):
         ops += [("corpus", l.strip()) for l in open(cpath) if l.strip() and not l.startswith("#")]
     ops += list(mod.gen_ops(tier, rng))
+    t_eval = time.time()
     rows = evaluate(mod, ops, have_driver)
+    if pinned_used:
+        # deeper correspondence while the tie rests on it alone: thorough-size sample, in chunks, within a time budget
+        budget = float(os.environ.get("VERIF_FALLBACK_BUDGET", "150"))
+        t1, extra, seen_ops = time.time(), [], {o for _, o in ops}
+        gen = mod.gen_ops("thorough", random.Random(seed * 7919 + 13))
+        rate = max(1.0, len(rows) / max(0.5, time.time() - t_eval))      # ops per second seen on this run
+        while time.time() - t1 < budget:
+            raw = list(itertools.islice(gen, int(min(3000, max(40, rate * 15)))))
+            if not raw:
+                break
+            chunk = [x for x in raw if x[1] not in seen_ops]
+            if not chunk:
+                continue
+            seen_ops.update(o for _, o in chunk)
+            extra += evaluate(mod, chunk, have_driver)
+        rows += extra
     known = common.Known()
     mismatches = [r for r in rows if r["mismatch"]]
     failures = [r for r in rows if r["verdict"] is not None]
@@ -225,6 +264,19 @@ def main():
             all_thms = [t for t in all_thms if t not in tie_thms]
             n_thm = len(all_thms)
             discharged = sum(1 for t in all_thms if t in axioms)
+
+    if pinned_used:
+        if mismatches or new_fail:
+            broken = first_broken + ["pinned model: %d correspondence mismatches, %d oracle failures"
+                                     % (len(mismatches), len(new_fail))]
+        else:
+            degraded = degraded + first_broken
+            for b in first_broken[:12]:
+                print("NOTE: %s" % b)
+            print("NOTE: the model regenerated from the current source no longer carries the proofs (above); the model "
+                  "generated from the pinned tree (%s) does, and it agrees with the current code on all %d ops of the "
+                  "deepened correspondence with a quiet oracle — tie kept by correspondence, see DESIGN 8.8"
+                  % (", ".join(pinned_used), len(rows)))
 
     status, replay = 0, None
     if new_fail:
@@ -300,7 +352,7 @@ def main():
             "trusted_base": mod.TRUSTED_BASE,
             "theorems": all_thms,
             "axioms_used": sorted({x for v in axioms.values() for x in v}),
-            "broken_obligations": broken, "tie_degraded": degraded,
+            "broken_obligations": broken, "tie_degraded": degraded, "pinned_model_used": pinned_used,
             "translator": {k: trep.get(k) for k in ("changed", "untranslated")},
             "evaluations": len(rows), "distinct_nontrivial": len(distinct),
             "rule": mod.RULE, "samples": samples, "streams": per_stream,
